@@ -1,2 +1,98 @@
+// C18 bounded stand-in: Inventory::resolve / partial_resolve (max_by_key / fold are provided iterator methods outside Verus),
+// the TOML round trip, and a witness search for the checksum grammar.
 use crate::Report;
-pub fn inventory(_thorough: bool) -> Report { Report::new("not implemented yet", "-") }
+use libherokubuildpack::inventory::Inventory;
+use libherokubuildpack::inventory::artifact::{Arch, Artifact, Os};
+use libherokubuildpack::inventory::checksum::Checksum;
+use libherokubuildpack::inventory::version::VersionRequirement;
+use serde::{Deserialize, Serialize};
+use std::cmp::Ordering;
+
+// a total order and a 2x2 product (partial) order
+#[derive(Debug, Clone, Copy, PartialEq, Eq, PartialOrd, Ord, Serialize, Deserialize)]
+struct Tot(u8);
+#[derive(Debug, Clone, Copy, PartialEq, Eq, Serialize, Deserialize)]
+struct Prod(u8, u8);
+impl PartialOrd for Prod {
+    fn partial_cmp(&self, o: &Self) -> Option<Ordering> {
+        match (self.0.cmp(&o.0), self.1.cmp(&o.1)) {
+            (Ordering::Equal, x) | (x, Ordering::Equal) => Some(x),
+            (a, b) if a == b => Some(a),
+            _ => None,
+        }
+    }
+}
+struct AtMost<T>(T);
+impl VersionRequirement<Tot> for AtMost<Tot> { fn satisfies(&self, v: &Tot) -> bool { v.0 <= self.0.0 } }
+impl VersionRequirement<Prod> for AtMost<Prod> { fn satisfies(&self, v: &Prod) -> bool { v.0 <= self.0.0 && v.1 <= self.0.1 } }
+type Sum = Checksum<()>;
+fn art<V>(v: V, os: Os, arch: Arch, i: usize) -> Artifact<V, (), Option<()>> { Artifact { version: v, os, arch, url: format!("u{i}"), checksum: "x:00".parse::<Sum>().unwrap(), metadata: None } }
+
+pub fn inventory(thorough: bool) -> Report {
+    let maxn = if thorough { 5 } else { 4 };
+    let mut r = Report::new(
+        "every inventory with up to N artifacts over versions {0,1,2} (total order) resp. {0,1}x{0,1} (product order, incomparable pairs) x {linux, darwin} x {amd64, arm64}, duplicates allowed, every query (os, arch, requirement 'at most v'): resolve/partial_resolve return an artifact that matches os, arch and requirement and that no other matching artifact exceeds, and None only when nothing matches; inventory -> TOML -> inventory gives equal artifacts; checksum strings over a hex/non-hex alphabet around the valid lengths; non-trivial = queries with at least two matching artifacts",
+        &format!("N <= {maxn} artifacts"),
+    );
+    let oss = [Os::Linux, Os::Darwin]; let archs = [Arch::Amd64, Arch::Arm64];
+    // ---- total order
+    let choices: Vec<(u8, usize, usize)> = { let mut v = vec![]; for ver in 0..3u8 { for o in 0..2 { for a in 0..2 { v.push((ver, o, a)); } } } v };
+    let mut idx: Vec<usize> = vec![];
+    for n in 0..=maxn {
+        idx.clear(); idx.resize(n, 0);
+        loop {
+            let mut inv: Inventory<Tot, (), Option<()>> = Inventory::new();
+            for (i, &c) in idx.iter().enumerate() { let (v, o, a) = choices[c]; inv.push(art(Tot(v), oss[o], archs[a], i)); }
+            for o in 0..2 { for a in 0..2 { for req in 0..3u8 {
+                r.evaluations += 1;
+                let matching: Vec<&Artifact<Tot, (), Option<()>>> = inv.artifacts.iter().filter(|x| x.os == oss[o] && x.arch == archs[a] && x.version.0 <= req).collect();
+                if matching.len() >= 2 { r.nontrivial += 1; }
+                let got = inv.resolve(oss[o], archs[a], &AtMost(Tot(req)));
+                let ok = match got { None => matching.is_empty(), Some(g) => matching.iter().any(|m| std::ptr::eq(*m, g)) && !matching.iter().any(|m| m.version > g.version) };
+                if !ok { r.violation("resolve", "resolve did not return a maximal matching artifact", format!("artifacts(version,os,arch)={:?} query=({o},{a},<={req})", idx.iter().map(|&c| choices[c]).collect::<Vec<_>>()), "maximal match / None iff no match".into(), format!("{:?}", got.map(|g| (g.version, g.url.clone())))); }
+            } } }
+            if n == maxn.min(3) || n < 3 {
+                // TOML round trip (kept to the smaller inventories)
+                if let Ok(s) = toml::to_string(&inv) { match s.parse::<Inventory<Tot, (), Option<()>>>() { Ok(back) => { if back.artifacts != inv.artifacts { r.violation("toml_round_trip", "artifacts differ after render + parse", s, "equal".into(), "different".into()); } } Err(e) => { if n > 0 { r.violation("toml_round_trip", "rendered inventory does not parse", s, "Ok".into(), e.to_string()); } } } }
+            }
+            let mut p = n; let mut done = n == 0;
+            while p > 0 { p -= 1; idx[p] += 1; if idx[p] < choices.len() { break; } idx[p] = 0; if p == 0 { done = true; } }
+            if done { break; }
+        }
+    }
+    // ---- partial (product) order
+    let pch: Vec<(u8, u8)> = vec![(0, 0), (0, 1), (1, 0), (1, 1)];
+    for n in 0..=maxn + 1 {
+        idx.clear(); idx.resize(n, 0);
+        loop {
+            let mut inv: Inventory<Prod, (), Option<()>> = Inventory::new();
+            for (i, &c) in idx.iter().enumerate() { inv.push(art(Prod(pch[c].0, pch[c].1), Os::Linux, Arch::Amd64, i)); }
+            for req in &pch {
+                r.evaluations += 1;
+                let matching: Vec<&Artifact<Prod, (), Option<()>>> = inv.artifacts.iter().filter(|x| x.version.0 <= req.0 && x.version.1 <= req.1).collect();
+                if matching.len() >= 2 { r.nontrivial += 1; }
+                let got = inv.partial_resolve(Os::Linux, Arch::Amd64, &AtMost(Prod(req.0, req.1)));
+                let ok = match got { None => matching.is_empty(), Some(g) => matching.iter().any(|m| std::ptr::eq(*m, g)) && !matching.iter().any(|m| m.version.partial_cmp(&g.version) == Some(Ordering::Greater)) };
+                if !ok { r.violation("partial_resolve", "partial_resolve did not return a maximal matching artifact", format!("versions={:?} requirement<={req:?}", idx.iter().map(|&c| pch[c]).collect::<Vec<_>>()), "maximal match / None iff no match".into(), format!("{:?}", got.map(|g| g.version))); }
+                if inv.partial_resolve(Os::Darwin, Arch::Amd64, &AtMost(Prod(req.0, req.1))).is_some() { r.violation("partial_resolve", "artifact with the wrong OS returned", format!("{idx:?}"), "None".into(), "Some".into()); }
+            }
+            let mut p = n; let mut done = n == 0;
+            while p > 0 { p -= 1; idx[p] += 1; if idx[p] < pch.len() { break; } idx[p] = 0; if p == 0 { done = true; } }
+            if done { break; }
+        }
+    }
+    // ---- checksum strings (witness search for the Verus-proved grammar): sha256 needs 64 hex digits
+    use libherokubuildpack::inventory::checksum::Digest;
+    struct D2; impl Digest for D2 { fn name_compatible(n: &str) -> bool { n == "d2" } fn length_compatible(l: usize) -> bool { l == 2 } }
+    let alpha = ['d', '2', ':', 'a', 'F', 'g', '0'];
+    fn strings(alpha: &[char], max: usize, cur: &mut String, f: &mut dyn FnMut(&str)) { f(cur); if cur.len() == max { return; } for &c in alpha { cur.push(c); strings(alpha, max, cur, f); cur.pop(); } }
+    strings(&alpha, if thorough { 8 } else { 7 }, &mut String::new(), &mut |s| {
+        r.evaluations += 1;
+        let exp = match s.split_once(':') { None => false, Some((n, h)) => n == "d2" && h.len() == 4 && h.chars().all(|c| c.is_ascii_hexdigit()) };
+        if exp { r.nontrivial += 1; }
+        let got = s.parse::<Checksum<D2>>().is_ok();
+        if got != exp { r.violation("checksum_grammar", "checksum accepted/rejected against <algorithm>:<hex> with the digest's name and length", format!("{s:?}"), format!("{exp}"), format!("{got}")); }
+    });
+    r.samples.push("versions [(0,1),(1,0),(1,1)] requirement <=(1,1) -> (1,1)".into());
+    r
+}
